@@ -6,6 +6,11 @@ EXTENDS Placer, TLC, Json
 
 CONSTANT Scope      \* "single" | "multi" | "arrays" | "random"
 Sizes == [a |-> <<3, 2>>, b |-> <<5, 7>>, c |-> <<1, 4>>, s |-> <<2, 6>>]
+\* the cells' outlines: two rectangles and two stepped (L-shaped) outlines; placement works on the BOUNDING BOX of an
+\* outline, i.e. the largest x step by the largest y step (x steps are non-increasing, y steps non-decreasing)
+Outlines == [a |-> [x |-> <<3>>, y |-> <<2>>], b |-> [x |-> <<5, 3>>, y |-> <<4, 7>>], c |-> [x |-> <<1>>, y |-> <<4>>], s |-> [x |-> <<2, 1>>, y |-> <<3, 6>>]]
+MaxOf(q) == CHOOSE v \in { q[i] : i \in 1..Len(q) } : \A i \in 1..Len(q) : q[i] <= v
+OutlinesMatchSizes == \A n \in DOMAIN Sizes : Sizes[n] = <<MaxOf(Outlines[n].x), MaxOf(Outlines[n].y)>>
 Sides == {"Left", "Right", "Top", "Bottom"}
 AlignsFor(side) == IF side \in {"Left", "Right"} THEN {"Top", "Bottom"} ELSE {"Left", "Right"}
 Seps == { [k |-> "none"], [k |-> "pitches", n |-> 3], [k |-> "sizeof", cell |-> "s"] }
@@ -57,7 +62,7 @@ Init == \E p \in Programs : PInitWith(p)
 Spec == Init /\ [][PNext]_pvars
 
 Emit == (order = <<>> /\ pstatus = "run") =>
-          PrintT(<<"CASE", ToJson([cells |-> prog.cells, insts |-> prog.insts, cyclic |-> HasCycle, arrays |-> prog.arrays,
+          PrintT(<<"CASE", ToJson([cells |-> prog.cells, outlines |-> Outlines, insts |-> prog.insts, cyclic |-> HasCycle, arrays |-> prog.arrays,
                                    array_elems |-> [i \in 1..Len(prog.arrays) |-> ArrayElems(prog.arrays[i])],
                                    expect |-> IF HasCycle THEN <<>> ELSE [i \in 1..Len(prog.insts) |-> [name |-> prog.insts[i].name, xy |-> FinalLoc(prog.insts[i].name, Len(prog.insts))]]])>>)
 =============================================================================
